@@ -627,7 +627,11 @@ fn trace_item(sh: &WcetShared, k: u64, rng: &mut Rng, acc: &mut Acc) {
 
 fn shape_item(sh: &WcetShared, k: u64, rng: &mut Rng, acc: &mut Acc) {
     let mut tstats = [0u64; 4];
-    let desc = match rng.below(4) {
+    let desc = match rng.below(5) {
+        4 => {
+            let n = rng.range(1, 6) as usize;
+            CostDesc::User((0..n).map(|_| rng.range(0, 15)).collect())
+        }
         0 => CostDesc::Scalar(rng.range(0, 20)),
         1 => {
             let n = rng.range(1, 7) as usize;
@@ -655,6 +659,7 @@ fn shape_item(sh: &WcetShared, k: u64, rng: &mut Rng, acc: &mut Acc) {
         CostDesc::Multiframe(_) => acc.counters.inc("case.shape_multiframe"),
         CostDesc::Curve(_) => acc.counters.inc("case.shape_curve"),
         CostDesc::Extrap(_) => acc.counters.inc("case.shape_extrapolating_curve"),
+        CostDesc::User(_) => acc.counters.inc("case.shape_user_defined"),
     }
     let fpv = hash_str(&format!("shape/{}", desc));
     sh.fps.insert(fpv);
@@ -678,6 +683,7 @@ fn shape_item(sh: &WcetShared, k: u64, rng: &mut Rng, acc: &mut Acc) {
                     CostDesc::Multiframe(_) => "Multiframe",
                     CostDesc::Curve(_) => "Curve",
                     CostDesc::Extrap(_) => "ExtrapolatingCurve",
+                    CostDesc::User(_) => "user-defined",
                 }),
                 summary: format!("{}: {}", desc, msg),
                 replay: replay_text("shape", &format!("model {}\nupto {}\n", desc, upto), &msg, &format!("seed={} case={}", sh.root, k)),
